@@ -127,6 +127,7 @@ func (fv *FuncVC) translate() (err error) {
 	fv.cur = fv.entry
 	fv.curReach = "true"
 	// ghost allocation counter
+	fv.ghostTerm(fv.entry, "mapepoch", SMath) // present in every state from the start, so that joins have it on every side
 	a0 := fv.ghostTerm(fv.entry, "alloc", SMath)
 	fv.assert(app(">=", a0.S, "0"))
 	// parameters
@@ -688,7 +689,8 @@ func (fv *FuncVC) instr1(in ssa.Instruction) {
 	case *ssa.Lookup:
 		fv.lookup(in)
 	case *ssa.MapUpdate:
-		// maps are opaque
+		// maps are opaque; what was read before is forgotten
+		fv.cur.ghost["mapepoch"] = fv.fresh("G_mapepoch_upd", SMath)
 	case *ssa.Range:
 		fv.vals[in] = Val{T: fv.fresh("range", SRef)}
 		if _, isStr := in.X.Type().Underlying().(*types.Basic); isStr {
@@ -1029,18 +1031,45 @@ func (fv *FuncVC) lookup(in *ssa.Lookup) {
 		fv.vals[in] = Val{T: fv.namedElem(Term{S: fv.elemAt(x, i), Sort: SByte, Go: in.Type()})}
 		return
 	}
-	// map lookup: arbitrary value
+	// map lookup: the value (and presence) are functions of the map, the key and a
+	// map epoch that is forgotten at every call, loop head and map update, so two
+	// reads with nothing in between agree and nothing else is known
+	m, k := fv.term(in.X), fv.term(in.Index)
 	if in.CommaOk {
 		tt := in.Type().(*types.Tuple)
 		v := fv.freshWF("mapval", tt.At(0).Type())
 		v.Go = tt.At(0).Type()
 		ok := fv.fresh("mapok", SBool)
+		if g, h, fine := fv.mapFuncs(m, k, v.Sort); fine {
+			fv.assert(app("=", v.S, g))
+			fv.assert(app("=", ok.S, h))
+		}
 		fv.vals[in] = Val{Tuple: []Val{{T: v}, {T: ok}}}
 		return
 	}
 	v := fv.freshWF("mapval", in.Type())
 	v.Go = in.Type()
+	if g, _, fine := fv.mapFuncs(m, k, v.Sort); fine {
+		fv.assert(app("=", v.S, g))
+	}
 	fv.vals[in] = Val{T: v}
+}
+
+// mapFuncs: the terms mapget(m, k, epoch) and maphas(m, k, epoch) in the current state.
+func (fv *FuncVC) mapFuncs(m, k Term, vs Sort) (string, string, bool) {
+	return fv.mapFuncsIn(fv.cur, m, k, vs)
+}
+
+func (fv *FuncVC) mapFuncsIn(st *State, m, k Term, vs Sort) (string, string, bool) {
+	if m.S == "" || k.S == "" || (vs.Kind != KInt && vs.Kind != KBool) {
+		return "", "", false
+	}
+	ep := fv.ghostTerm(st, "mapepoch", SMath)
+	tag := sortTag(vs, fv.Mode) + "_" + sortTag(m.Sort, fv.Mode) + "_" + sortTag(k.Sort, fv.Mode)
+	args := []string{m.Sort.smt(fv.Mode), k.Sort.smt(fv.Mode), "Int"}
+	fv.declareFun("mapget_"+tag, args, vs.smt(fv.Mode))
+	fv.declareFun("maphas_"+tag, args, "Bool")
+	return app("mapget_"+tag, m.S, k.S, ep.S), app("maphas_"+tag, m.S, k.S, ep.S), true
 }
 
 func (fv *FuncVC) next(in *ssa.Next) {
